@@ -6,6 +6,7 @@ mod golden;
 mod interp;
 mod jetmodel;
 mod layout;
+mod mutate_text;
 mod pipeline;
 mod props;
 mod rng;
@@ -100,6 +101,21 @@ fn real_main() {
         "c12" => props::c12::run(&mut cx),
         "c14" => props::c14::run(&mut cx),
         "c18" => props::c18::run(&mut cx),
+        "c16" => props::c16::run(&mut cx),
+        "c17" => props::c17::run(&mut cx),
+        "c19" => props::c19::run(&mut cx),
+        "c19-child" => {
+            props::c19::run_child(&a[2..]);
+            return;
+        }
+        "c20" => props::c20::run(&mut cx),
+        "c06" => props::c06::run(&mut cx),
+        "c06-child" => {
+            cx.prop = "c06".into();
+            let from: u64 = arg("--from").and_then(|s| s.parse().ok()).unwrap_or(0);
+            let to: u64 = arg("--to").and_then(|s| s.parse().ok()).unwrap_or(0);
+            props::c06::run_child(&mut cx, from, to)
+        }
         "c07" => props::c07::run(&mut cx),
         "c08" => props::c08::run(&mut cx),
         "c09" => props::c09::run(&mut cx),
@@ -120,8 +136,11 @@ fn real_main() {
 
 fn main() {
     // deep programs recurse deeply in the interpreter and the trace machine
+    // ... except for the children of C06, which call the library on an 8 MiB stack like an
+    // ordinary caller (that is what `simc` has), so that a stack overflow becomes visible
+    let is_c06_child = std::env::args().nth(1).map_or(false, |c| c == "c06-child");
     let t = std::thread::Builder::new()
-        .stack_size(2 << 30)
+        .stack_size(if is_c06_child { 8 << 20 } else { 2 << 30 })
         .spawn(real_main)
         .expect("spawn");
     if t.join().is_err() {
